@@ -238,6 +238,8 @@ type Gen struct {
 	vlong       bool // the genesis holds the 65 5xx-record topic
 	hostilePos  int
 	whale       bool
+	giant       bool // GiantDenomA/B exist (2^255 each, held by GiantHolder)
+	giantSent   bool
 	sole        bool
 	soleLeft    int
 	nProposals  int
@@ -288,6 +290,11 @@ func GenerateScript(seed uint64, prop, tier string, env *Env) *Script {
 	if rng.Chance(0.5) || prop == "C07" || prop == "C17" {
 		s.Config.Genesis.ExtraDenoms = append(s.Config.Genesis.ExtraDenoms, WhaleDenom)
 		g.whale = true
+		if rng.Chance(0.5) {
+			// two denominations of 2^255 each, one holder: each amount is a legal coin, their sum is not a 256-bit integer
+			g.giant = true
+			s.Config.Genesis.ExtraDenoms = append(s.Config.Genesis.ExtraDenoms, GiantDenomA, GiantDenomB)
+		}
 	}
 	if rng.Chance(0.4) || prop == "C07" || prop == "C17" {
 		s.Config.Genesis.ExtraDenoms = append(s.Config.Genesis.ExtraDenoms, SoleDenom)
@@ -936,7 +943,9 @@ func (g *Gen) didDoc(did string, keys []int, style int) *DocSpec {
 		d.VMs = append(d.VMs, VMSpec{Id: fmt.Sprintf("%s#key%d", did, keys[0]), Type: "EcdsaSecp256k1VerificationKey2019", Controller: did, Key: keys[0]})
 		d.Auth = []RelSpec{{Ref: d.VMs[0].Id}}
 	}
-	if r.Chance(0.3) {
+	if r.Chance(0.07) {
+		d.NoContext = true // a document without @context is legal (contexts are only checked when present)
+	} else if r.Chance(0.3) {
 		d.Contexts = []string{w3cContext, "https://example.org/ctx/v1"}
 		if r.Chance(0.4) {
 			// several more contexts, in no particular order (the order is part of the document)
@@ -1201,6 +1210,23 @@ func (g *Gen) famDidAdv() {
 	case 32, 33: // the stored document lists a method of a key type nothing can verify under authentication; an update names it and
 		// brings a new document in which that id is a secp256k1 method with the sender's key: the proof is to be checked
 		// against the STORED document
+		if r.Chance(0.45) {
+			// ... or under authentication as a DEDICATED method of such a type, while verificationMethod lists a secp256k1 method
+			// of somebody else under the same id (not referenced by authentication): that somebody names the id and signs
+			x := did + "#recovery"
+			att := (k + 7) % NumDidKeys
+			doc := g.didDoc(did, []int{k}, 0)
+			doc.VMs = append(doc.VMs, VMSpec{Id: x, Type: "EcdsaSecp256k1VerificationKey2019", Controller: did, Key: att})
+			doc.Auth = append(doc.Auth, RelSpec{VM: &VMSpec{Id: x, Type: []string{"Bls12381G1Key2020", "Ed25519VerificationKey2018", "JsonWebKey2020"}[r.Intn(3)], Controller: did, Key: other}})
+			id := g.tx(MsgSpec{T: "did.Update", F: map[string]string{"did": did, "from": from}, Doc: doc, Proof: &ProofSpec{Key: k, MethodID: mid, Seq: "cur"}})
+			g.didTx = append(g.didTx, didRef{id, did})
+			if r.Chance(0.6) {
+				upd(&ProofSpec{Key: att, MethodID: x, Seq: "cur"}, g.didDoc(did, []int{att}, 0))
+			} else {
+				g.tx(MsgSpec{T: "did.Deactivate", F: map[string]string{"did": did, "from": from}, Proof: &ProofSpec{Key: att, MethodID: x, Seq: "cur"}})
+			}
+			return
+		}
 		x := did + "#bbs"
 		doc := g.didDoc(did, []int{k}, 0)
 		doc.VMs = append(doc.VMs, VMSpec{Id: x, Type: []string{"Bls12381G1Key2020", "Ed25519VerificationKey2018", "JsonWebKey2020"}[r.Intn(3)], Controller: did, Key: other})
@@ -1239,8 +1265,18 @@ func (g *Gen) famDidAdv() {
 		if ks, ms := g.authKeys(ctl); len(ks) > 0 {
 			ci, cm = ks[0], ms[0]
 		}
-		// the controller's key, naming the controller's own method, over this DID's content and sequence
-		if r.Chance(0.5) {
+		// the controller's key, naming the controller's own method, over this DID's content and sequence - or over the
+		// sequence the CONTROLLER's entry stands at
+		if r.Chance(0.35) {
+			nd := g.didDoc(did, []int{k}, 0)
+			nd.Controller = []string{ctl} // the new document keeps naming the controller
+			cid := g.tx(MsgSpec{T: "did.Update", F: map[string]string{"did": did, "from": from}, Doc: nd, Proof: &ProofSpec{Key: ci, MethodID: cm, Seq: "cur", SeqOfDID: ctl}})
+			// ... and the very same message again, in a new transaction (were it accepted, the controller's sequence would not have moved)
+			g.emit(&TxSpec{Msgs: []MsgSpec{{T: "reuse", OfTx: cid, OfMsg: 0}}, Note: "the same DID message, relayed again"})
+			if r.Chance(0.5) {
+				g.emit(&TxSpec{Msgs: []MsgSpec{{T: "reuse", OfTx: cid, OfMsg: 0}}, Note: "the same DID message, relayed again"})
+			}
+		} else if r.Chance(0.5) {
 			upd(&ProofSpec{Key: ci, MethodID: cm, Seq: "cur"}, g.didDoc(did, []int{ci}, 0))
 		} else {
 			g.tx(MsgSpec{T: "did.Deactivate", F: map[string]string{"did": did, "from": from}, Proof: &ProofSpec{Key: ci, MethodID: cm, Seq: "cur"}})
@@ -2047,6 +2083,17 @@ func (g *Gen) famBurn() {
 			g.soleLeft = -1
 		}
 		g.tx(MsgSpec{T: "bank.Send", F: map[string]string{"from": g.addr(SoleHolder), "to": BurnAddress}, Coins: []CoinSpec{{Denom: SoleDenom, Amount: fmt.Sprint(amt)}}})
+		return
+	}
+	if g.giant && !g.giantSent && r.Chance(0.3) {
+		// both giants reach the burn address in one block (one transfer, or two)
+		g.giantSent = true
+		if r.Chance(0.5) {
+			g.tx(MsgSpec{T: "bank.Send", F: map[string]string{"from": g.addr(GiantHolder), "to": BurnAddress}, Coins: []CoinSpec{{Denom: GiantDenomA, Amount: GiantAmount}, {Denom: GiantDenomB, Amount: GiantAmount}}})
+		} else {
+			g.tx(MsgSpec{T: "bank.Send", F: map[string]string{"from": g.addr(GiantHolder), "to": BurnAddress}, Coins: []CoinSpec{{Denom: GiantDenomA, Amount: GiantAmount}}})
+			g.tx(MsgSpec{T: "bank.Send", F: map[string]string{"from": g.addr(GiantHolder), "to": BurnAddress}, Coins: []CoinSpec{{Denom: GiantDenomB, Amount: GiantAmount}}})
+		}
 		return
 	}
 	switch r.Intn(4) {
